@@ -81,6 +81,14 @@ fn find_and_play_best_move(
     let time_to_move_ms = parse_go_command(commands).calculate_time_slice(board.to_move);
     let mut best_move = None;
 
+    // the game is already over (checkmate or stalemate): the search would never send a move
+    // and the loop below would wait forever, answer with the null move instead
+    let zobrist_hasher = ZobristHasher::create_zobrist_hasher();
+    if generate_moves(board, MoveGenerationMode::AllMoves, &zobrist_hasher).is_empty() {
+        send_to_gui("bestmove 0000");
+        return board.clone();
+    }
+
     let (tx, rx) = mpsc::channel();
     let clone = board.clone();
     let mut draw_clone = draw_table.clone();
